@@ -17,6 +17,7 @@ import (
 	"fmt"
 	"os"
 	"strings"
+	"time"
 
 	"ssvharness/internal/common"
 )
@@ -149,6 +150,8 @@ func main() {
 			if err != nil {
 				break
 			}
+			t0 := time.Now()
+			ev0 := rep.Evaluations
 			if e.directed != nil {
 				if err = e.eval(e.directed(o), d, o, rep); err != nil {
 					break
@@ -169,6 +172,7 @@ func main() {
 			if err == nil && len(cases) > 0 {
 				err = e.eval(cases, d, o, rep)
 			}
+			rep.Note("engine %s: %d cases in %.1fs", e.name, rep.Evaluations-ev0, time.Since(t0).Seconds())
 		}
 	}
 	if err != nil {
